@@ -207,6 +207,9 @@ func (p *prop) tagsAndOracle(k *kase, impl string, o *obs, out *core.Outcome) {
 	if k.srvTNil {
 		tag("cfg:no-trusted-proxies")
 	}
+	if k.srvDyn {
+		tag("cfg:request-scoped-range-source")
+	}
 	if k.cihNil {
 		tag("cfg:default-client-ip-headers")
 	}
@@ -235,9 +238,12 @@ func (p *prop) tagsAndOracle(k *kase, impl string, o *obs, out *core.Outcome) {
 	// ---------------- OM: everything that consumes the attributed address sees exactly that address
 	{
 		mr := k.matcherRanges()
-		mz := append(make([]string, len(k.srvT)+len(k.hT)), fixedZones...)
 		var mp []netip.Prefix
-		mp = append(append(append(mp, sp...), hp...), fixedPrefixes...)
+		if !k.srvDyn {
+			mp = append(mp, sp...)
+		}
+		mp = append(append(mp, hp...), fixedPrefixes...)
+		mz := append(make([]string, len(mp)-len(fixedPrefixes)), fixedZones...)
 		zoneMatch := func(a netip.Addr, zone string) bool {
 			for i, p := range mp {
 				if p.Contains(a) && (mz[i] == "" || mz[i] == zone) {
@@ -249,6 +255,11 @@ func (p *prop) tagsAndOracle(k *kase, impl string, o *obs, out *core.Outcome) {
 		want := false
 		if a, err := netip.ParseAddr(o.clientIP); err == nil {
 			want = zoneMatch(a, "")
+		}
+		if k.early {
+			// 0-RTT data: the address cannot be verified yet, the matchers must refuse to match
+			want = false
+			tag("tls:early-data")
 		}
 		if o.matchedIP != want {
 			fail("client-ip-matcher-disagrees", fmt.Sprintf("client_ip matcher over %v says %v for client_ip %q", mr, o.matchedIP, o.clientIP))
@@ -272,6 +283,9 @@ func (p *prop) tagsAndOracle(k *kase, impl string, o *obs, out *core.Outcome) {
 		wantR := false
 		if a, err := netip.ParseAddr(rhost); err == nil {
 			wantR = zoneMatch(a, rzone)
+		}
+		if k.early {
+			wantR = false
 		}
 		if o.remoteHit != wantR {
 			fail("remote-ip-matcher-disagrees", fmt.Sprintf("remote_ip matcher over %v says %v for remote %q", mr, o.remoteHit, k.remote))
